@@ -109,13 +109,11 @@ func (a *A) keyedByPID() {
 	}
 	nlook, nnew := 0, 0
 	ctors := map[*ssa.Function]bool{}
-	for _, s := range sites {
-		args := s.Common().Args
-		if len(args) != 2 || args[1] != ssa.Value(pkt) {
-			bad = append(bad, "acc.add is not called with the arriving packet")
-			continue
-		}
-		for _, l := range ssau.Leaves(args[0]) {
+	var judge func(isPID, isPoolMap func(ssa.Value) bool, accV ssa.Value, s ssa.CallInstruction, depth int)
+	isPoolRecv := func(v ssa.Value) bool { return v == ssa.Value(recv) }
+	accessors := map[*ssa.Function]bool{}
+	judge = func(isPID, isPoolMap func(ssa.Value) bool, accV ssa.Value, s ssa.CallInstruction, depth int) {
+		for _, l := range ssau.Leaves(accV) {
 			if l == nil {
 				bad = append(bad, "the accumulator may be the zero value")
 				continue
@@ -198,8 +196,49 @@ func (a *A) keyedByPID() {
 				}
 				continue
 			}
+			// an accessor of the pool: h(b, …, key, …) that returns b.b[uint32(key)] or a fresh accumulator for key stored under it
+			if hc := callOf(l); hc != nil && depth == 0 {
+				if h := hc.Call.StaticCallee(); h != nil && h.Pkg == a.P.SSAPkg && len(h.Blocks) > 0 && len(h.Params) >= 2 && len(hc.Call.Args) == len(h.Params) && isPoolRecv(hc.Call.Args[0]) {
+					hrecv := h.Params[0]
+					found := false
+					for ki := 1; ki < len(h.Params); ki++ {
+						if !isPID(hc.Call.Args[ki]) {
+							continue
+						}
+						kprm := h.Params[ki]
+						hIsKey := func(v ssa.Value) bool { return stripConvert(v) == ssa.Value(kprm) }
+						hIsMap := func(v ssa.Value) bool {
+							base, ok := a.fieldLoadOf(v, "packetPool", "b")
+							return ok && base == ssa.Value(hrecv)
+						}
+						nret := 0
+						for _, ret := range ssau.Returns(h) {
+							if len(ret.Results) != 1 {
+								continue
+							}
+							nret++
+							judge(hIsKey, hIsMap, ret.Results[0], retSite{ret}, 1)
+						}
+						if nret > 0 {
+							found = true
+						}
+					}
+					if found {
+						accessors[h] = true
+						continue
+					}
+				}
+			}
 			bad = append(bad, "the accumulator passed to add is "+describe(l)+": neither b.b[uint32(p.Header.PID)] nor a new accumulator stored under that key")
 		}
+	}
+	for _, s := range sites {
+		args := s.Common().Args
+		if len(args) != 2 || args[1] != ssa.Value(pkt) {
+			bad = append(bad, "acc.add is not called with the arriving packet")
+			continue
+		}
+		judge(isPID, isPoolMap, args[0], s, 0)
 	}
 	if nlook == 0 {
 		bad = append(bad, "no lookup in b.b feeds acc.add")
@@ -214,7 +253,7 @@ func (a *A) keyedByPID() {
 	// every other producer of a *packetAccumulator that addUnlocked calls must be such a constructor
 	for _, c := range ssau.Calls(f) {
 		g := c.Common().StaticCallee()
-		if g == nil || g.Pkg != a.P.SSAPkg || g.Signature.Results().Len() != 1 || ctors[g] {
+		if g == nil || g.Pkg != a.P.SSAPkg || g.Signature.Results().Len() != 1 || ctors[g] || accessors[g] {
 			continue
 		}
 		if pt, ok := g.Signature.Results().At(0).Type().Underlying().(*types.Pointer); ok && ssau.IsNamed(pt.Elem(), load.RootPath, "packetAccumulator") {
@@ -1249,3 +1288,9 @@ func (a *A) firstPacketIdentity() {
 		fmt.Sprintf("all %d pid uses are loads of ps[0].Header.PID and all %d FirstPacket values copy ps[0].Header/AdaptationField; no other constant index into ps: what is attributed to a unit comes from the group it was handed (groups are single-accumulator by S6/I1)", npid, nfp),
 		strings.Join(bad, "; "))
 }
+
+// retSite lets a Return stand where the rule expects the instruction that consumes the accumulator (only its block is used).
+type retSite struct{ *ssa.Return }
+
+func (r retSite) Common() *ssa.CallCommon { return nil }
+func (r retSite) Value() *ssa.Call        { return nil }
